@@ -44,6 +44,7 @@ def clsOf (s : Str) : Cls :=
   else if s == "GroupedSection".toList then .group
   else if s == "RepeatingSection".toList then .repeat
   else if s == "ExternalInstance".toList || s == "EntityDeclaration".toList then .inert
+  else if s == "OsmUploadQuestion".toList then .osm
   else if s == "Survey".toList then .group
   else .other
 
@@ -78,7 +79,18 @@ partial def elemOfJson (j : Json) : Except String Elem := do
     appearance := optStr j "appearance"
     itemset := optStr j "itemset"
     list := getStrD j "list" ""
-    hasChoices := getBoolD j "hasChoices" false }
+    hasChoices := getBoolD j "hasChoices" false
+    tags := ← (match j.getObjVal? "tags" with
+      | .ok v => do
+        let a ← v.getArr?
+        a.toList.mapM fun x => do
+          let p ← x.getArr?
+          if h : p.size = 2 then
+            let k ← p[0].getStr?
+            let v ← txtOfJson p[1]
+            pure (k.toList, v)
+          else throw "pair expected"
+      | .error _ => pure []) }
   let ks ← match j.getObjVal? "kids" with
     | .ok v => do let a ← v.getArr?; a.toList.mapM elemOfJson
     | .error _ => pure []
@@ -98,7 +110,9 @@ def strsToJson (l : List Str) : Json := Json.arr (l.map jstr).toArray
 
 def trToJson (t : Tr) : Json :=
   Json.mkObj [("lang", jstr t.lang), ("default", Json.bool t.isDefault), ("ids", strsToJson t.ids),
-    ("forms", Json.arr (t.texts.map fun tf => Json.arr (tf.2.map fun o => match o with
+    ("forms", Json.arr (t.texts.map fun tf => Json.arr (tf.2.map fun o => match o.1 with
+      | some f => jstr f | none => Json.null).toArray).toArray),
+    ("values", Json.arr (t.texts.map fun tf => Json.arr (tf.2.map fun o => match o.2 with
       | some f => jstr f | none => Json.null).toArray).toArray)]
 
 def trOfJson (j : Json) : Except String Tr := do
@@ -121,7 +135,8 @@ def opsItext (op : String) (j : Json) : Option (Except String Json) :=
         pure (Json.mkObj [("outcome", "ok"), ("translations", Json.arr (o.translations.map trToJson).toArray),
           ("bodyRefs", strsToJson o.bodyRefs), ("bindRefs", strsToJson o.bindRefs), ("itemIds", strsToJson o.itemIds),
           ("holds", holdsToJson (obsOf x.defaultLanguage o)),
-          ("guard", Json.mkObj [("wf", Json.bool (wf x)), ("choicesLabeled", Json.bool (choicesLabeled x))])])
+          ("guard", Json.mkObj [("wf", Json.bool (wf x)), ("choicesLabeled", Json.bool (choicesLabeled x)),
+            ("tagsPlain", Json.bool (tagsPlain x))])])
   | "itext.holds" => some do
       let ts ← (← getArr j "translations").toList.mapM trOfJson
       let refs ← getStrList j "refs"
